@@ -241,6 +241,16 @@ func (j *Join) ParallelJoinFunc(l, r *HashedTable) ([]any, error) {
 		wg.Add(1)
 		go func(lk string, lv *map[string]any) {
 			defer wg.Done()
+			// a panic on a worker goroutine would end the process
+			defer func() {
+				if r := recover(); r != nil {
+					mut.Lock()
+					if failure == nil {
+						failure = fmt.Errorf("%v", r)
+					}
+					mut.Unlock()
+				}
+			}()
 			switch ok, matches, err := j.JoinMatchFunc(lk, lv, l, r); {
 			case ok:
 				{
@@ -344,6 +354,16 @@ func (j *Join) ParallelHashJoinFunc(l, r *HashedTable) ([]any, error) {
 		wg.Add(1)
 		go func(lk string) {
 			defer wg.Done()
+			// a panic on a worker goroutine would end the process
+			defer func() {
+				if r := recover(); r != nil {
+					mut.Lock()
+					if failure == nil {
+						failure = fmt.Errorf("%v", r)
+					}
+					mut.Unlock()
+				}
+			}()
 			switch ok, matches, err := j.HashJoinMatchFunc(lk, l, r); {
 			case ok:
 				{
